@@ -224,6 +224,10 @@ func (k c04Knob) effective(st *RuntimeState, v string) bool {
 	return f.String() == v
 }
 
+// the reduced matrix of the quick tier presents an artefact to every consumer of its own kind and to
+// these consumers of the other kinds
+var c04PeerRepresentative = map[string]bool{"session": true, "cliverify": true, "storage": true, "token": true, "userinfo": true}
+
 // values tried for a knob, in this order: an https URL, a host name, a plain word
 var c04KnobValues = []string{"https://sso.example", "sso.example", "sso"}
 
@@ -405,8 +409,8 @@ func (ps *c04Peers) matrix(at, from *c04Site, full bool, knob, value string) {
 	for _, a := range arts {
 		kinds[a.kind] = true
 		for _, c := range at.consumers {
-			if !full && c.name == "session-http" && a.kind != "session" {
-				continue // the HTTP twin of "session" sees the session cookies only in the reduced matrix
+			if !full && c.kind != a.kind && !c04PeerRepresentative[c.name] {
+				continue // reduced matrix: every consumer of the artefact's own kind, one consumer of every other kind
 			}
 			label := "peer-matrix"
 			if knob != "" {
@@ -481,7 +485,7 @@ func (env *verifEnv) c04PeerSection(t *testing.T, res *verifResult) string {
 		t.Fatal(err)
 	}
 	ps := &c04Peers{t: t, res: res, mainKey: env.state.Signer, peerKey: peerKey, tokIdx: map[string]int{}, hitOnce: map[string]bool{}}
-	const limit = 6 * time.Second
+	const limit = 3 * time.Second
 
 	// ---- the default configuration, on both listen-address shapes of idpGetIssuer: full matrix, both directions
 	var defaults AppConfigFile // the configuration as member A writes it (the fields the harness itself sets are not empty there)
@@ -503,6 +507,7 @@ func (env *verifEnv) c04PeerSection(t *testing.T, res *verifResult) string {
 	// ---- every string setting that is empty by default, shared by both members
 	knobs := c04StringKnobs()
 	var used, skipped, nonEmpty []string
+	knobSeconds := map[string]float64{}
 	budget := 75 * time.Second
 	if verifThorough() {
 		budget = 10 * time.Minute
@@ -520,12 +525,16 @@ func (env *verifEnv) c04PeerSection(t *testing.T, res *verifResult) string {
 		}
 		var reasons []string
 		done := false
+		knobStart := time.Now()
 		for _, v := range c04KnobValues {
 			v := v
+			tryStart := time.Now()
 			a, b, err := ps.pair(":443", fmt.Sprintf("%s=%q on both members,", k.name, v), func(c *AppConfigFile) { k.set(c, v) }, limit)
 			if err != nil {
 				reasons = append(reasons, fmt.Sprintf("%q: %v", v, err))
-				if strings.Contains(err.Error(), "timeout") {
+				if strings.Contains(err.Error(), "timeout") || time.Since(tryStart) > 1500*time.Millisecond {
+					// a loader that waits for something outside the process: another value will not help
+					reasons = append(reasons, "slow refusal (external resource): no further value tried")
 					break
 				}
 				continue
@@ -534,9 +543,9 @@ func (env *verifEnv) c04PeerSection(t *testing.T, res *verifResult) string {
 				reasons = append(reasons, fmt.Sprintf("%q: the loaded configuration does not carry the value", v))
 				continue
 			}
-			ps.matrix(a, b, false, k.name, v)
+			ps.matrix(a, b, verifThorough(), k.name, v)
 			if verifThorough() {
-				ps.matrix(b, a, false, k.name, v)
+				ps.matrix(b, a, true, k.name, v)
 			}
 			used = append(used, fmt.Sprintf("%s=%s", k.name, v))
 			res.bump("peer-knob:exercised")
@@ -549,12 +558,14 @@ func (env *verifEnv) c04PeerSection(t *testing.T, res *verifResult) string {
 			skipped = append(skipped, k.name+": "+strings.Join(reasons, "; "))
 			res.bump("peer-knob:skipped")
 		}
+		knobSeconds[k.name] = float64(time.Since(knobStart).Milliseconds()) / 1000
 	}
 	res.Extra["peer_string_knobs"] = len(knobs)
 	res.Extra["peer_knobs_exercised"] = used
 	res.Extra["peer_knobs_skipped"] = skipped
 	res.Extra["peer_knobs_not_empty_by_default"] = nonEmpty
 	res.Extra["peer_sites"] = len(ps.sites)
+	res.Extra["peer_knob_seconds"] = knobSeconds
 	res.Extra["peer_cases"] = len(ps.cases)
 	res.Extra["peer_section_seconds"] = time.Since(start).Seconds()
 	if len(used) == 0 {
